@@ -1,6 +1,173 @@
+(** C04 -- Continued simulation: absolute increasing time axis, piecewise-exact states.
+
+    ONLY theorem statements (written out in full), each closed by [exact <lemma>] and followed by
+    [Print Assumptions].  All statements are about [gen_sim_facts], the facts REGENERATED from
+    /repo/src/mxlpy/simulator.py and integrators/int_scipy.py on every run; [C04_facts_pinned] is the
+    obligation that breaks when the frame / comparison of a refusal test, the point filter, a
+    skipfirst argument, the steady-state reset, update_variables or any of the shape-pinned
+    functions is edited.
+
+    External behaviour is universally quantified: [flow] (the ODE solution map; [flow p t y d] =
+    state after duration d from state y at INTEGRATOR time t), [solve_ok] (solver success),
+    [conv] (steady-state norm test), [pupd] (Model.update_parameters), [yovr] (dict | overrides).
+
+    FULL statement of the property (kept visible):
+      for ANY history of operations the accumulated index is strictly increasing, contains every
+      requested later point exactly once, every segment is the solution from the previous final
+      state (override applied) under the parameters in force, refusal iff end <= reached.
+    It is FALSE of the code (hence of the faithful model) in two situations, each recorded as a known
+    finding with a machine-checked refutation below:
+      - a steady-state run in the history           ([C04_steady_refuted]);
+      - a rate law reading `time` after an override ([C04_nonautonomous_refuted]).
+    The [_partial] theorems carry exactly these guards: [Forall no_steady ops], and the start time
+    [h] of the solution being the integrator's (shifted) time, which is immaterial iff [flow] ignores it. *)
 From Coq Require Import QArith List Bool NArith.
-From Sim Require Import Integrator Simulator Protocol SimExec GenSimFacts SimProofs.
+From Sim Require Import Integrator Simulator Protocol SimExec GenSimFacts SimProofs ProtocolProofs.
+Import ListNotations.
+Open Scope Q_scope.
+
 Theorem C04_facts_pinned :
-  gen_sim_facts = mkSimFacts FrameAbs CmpLe FrameAbs CmpLe CmpGe true true false true false 100 1000 CmpLe CmpGt CmpLe true true.
+  gen_sim_facts =
+    mkSimFacts FrameAbs CmpLe FrameAbs CmpLe CmpGe true true false true false 100 1000 CmpLe CmpGt CmpLe true true.
 Proof. vm_compute. reflexivity. Qed.
 Print Assumptions C04_facts_pinned.
+
+(** every state reachable from a new simulator by ANY history without a steady-state run satisfies
+    the invariant [Inv2]: the integrator's time + _time_shift is the time reached, the index is
+    strictly increasing, and the integrator's state is the last row (or the overridden state) *)
+Theorem C04_history_invariant_partial :
+  forall (Y P U O : Type) (flow : P -> Q -> Y -> Q -> Y) (solve_ok : P -> Q -> Y -> Q -> bool)
+         (conv : Y -> Y -> bool) (pupd : P -> U -> P) (yovr : Y -> O -> Y)
+         (y0 : Y) (p : P) (ops : list (op U O)),
+    Forall (no_steady U O) ops ->
+    Inv2 Y P (run Y P U O flow solve_ok conv pupd yovr gen_sim_facts (sim_new Y P y0 p) ops).
+Proof.
+  intros. apply (history_invariant Y P U O flow solve_ok conv pupd yovr gen_sim_facts (good_of_pinned _ C04_facts_pinned)).
+  - assumption.
+  - apply sim_new_inv2.
+Qed.
+Print Assumptions C04_history_invariant_partial.
+
+(** ... in particular the accumulated time axis is strictly increasing after any such history *)
+Theorem C04_axis_increasing_partial :
+  forall (Y P U O : Type) (flow : P -> Q -> Y -> Q -> Y) (solve_ok : P -> Q -> Y -> Q -> bool)
+         (conv : Y -> Y -> bool) (pupd : P -> U -> P) (yovr : Y -> O -> Y)
+         (y0 : Y) (p : P) (ops : list (op U O)),
+    Forall (no_steady U O) ops ->
+    incr (index_of Y P (run Y P U O flow solve_ok conv pupd yovr gen_sim_facts (sim_new Y P y0 p) ops)).
+Proof. exact (fun Y P U O flow solve_ok conv pupd yovr => history_axis_increasing Y P U O flow solve_ok conv pupd yovr gen_sim_facts (good_of_pinned _ C04_facts_pinned)). Qed.
+Print Assumptions C04_axis_increasing_partial.
+
+(** simulate(t_end, steps) with steps >= 1 (or the default grid) in any reachable state:
+    refused exactly when t_end is not later than the time reached (and then nothing changes);
+    otherwise the grid points after the first are appended: strictly increasing, ending exactly at
+    t_end, [steps] of them, their rows the solution from the state the integrator holds
+    ([start_state]: the last row, or the overridden state), the parameters in force recorded *)
+Theorem C04_simulate_partial :
+  forall (Y P : Type) (flow : P -> Q -> Y -> Q -> Y) (solve_ok : P -> Q -> Y -> Q -> bool)
+         (s : sim Y P) (t_end : Q) (steps : option nat) (m : nat),
+    Inv2 Y P s -> has_errors Y P s = false -> n_points steps = S (S m) ->
+    (snd (simulate Y P flow solve_ok gen_sim_facts s t_end steps) = RaisedValue <-> t_end <= reached Y P s)
+    /\ (snd (simulate Y P flow solve_ok gen_sim_facts s t_end steps) <> RaisedValue ->
+        snd (simulate Y P flow solve_ok gen_sim_facts s t_end steps) = Done)
+    /\ (t_end <= reached Y P s -> fst (simulate Y P flow solve_ok gen_sim_facts s t_end steps) = s)
+    /\ (forall s', simulate Y P flow solve_ok gen_sim_facts s t_end steps = (s', Done) -> has_errors Y P s' = false ->
+          let h := sim_h Y P s t_end m in let rest := sim_rest Y P s t_end m in
+          h == i_t0 (s_int s) /\ i_t0 (s_int s) + shiftv Y P s == reached Y P s
+          /\ i_y0 (s_int s) = start_state Y P s
+          /\ incr (h :: rest) /\ appended Y P flow s s' h rest
+          /\ reached Y P s' == t_end /\ length rest = S m).
+Proof. exact (fun Y P flow solve_ok => simulate_spec Y P flow solve_ok gen_sim_facts (good_of_pinned _ C04_facts_pinned)). Qed.
+Print Assumptions C04_simulate_partial.
+
+(** simulate_time_course(points) in any reachable state: refused exactly when the last point is not
+    later than the time reached, or the points not earlier than it are not strictly increasing
+    (scipy rejects such an array), and then nothing changes; otherwise EXACTLY the requested points
+    later than the time reached are appended (same order, each once, nothing else), the new time
+    reached is the last requested point, rows and parameters as above *)
+Theorem C04_time_course_partial :
+  forall (Y P : Type) (flow : P -> Q -> Y -> Q -> Y) (solve_ok : P -> Q -> Y -> Q -> bool)
+         (s : sim Y P) (pts : list Q),
+    Inv2 Y P s -> has_errors Y P s = false -> pts <> [] ->
+    (snd (simulate_time_course Y P flow solve_ok gen_sim_facts s pts) = RaisedValue <->
+       lastq pts 0 <= reached Y P s \/ ~ incr (filter (fun t => Qle_bool (reached Y P s) t) pts))
+    /\ (snd (simulate_time_course Y P flow solve_ok gen_sim_facts s pts) <> RaisedValue ->
+        snd (simulate_time_course Y P flow solve_ok gen_sim_facts s pts) = Done)
+    /\ (snd (simulate_time_course Y P flow solve_ok gen_sim_facts s pts) = RaisedValue ->
+        fst (simulate_time_course Y P flow solve_ok gen_sim_facts s pts) = s)
+    /\ (forall s', simulate_time_course Y P flow solve_ok gen_sim_facts s pts = (s', Done) -> has_errors Y P s' = false ->
+          exists h rest,
+            h == i_t0 (s_int s) /\ i_t0 (s_int s) + shiftv Y P s == reached Y P s
+            /\ i_y0 (s_int s) = start_state Y P s
+            /\ incr (h :: rest) /\ appended Y P flow s s' h rest
+            /\ Qeql (map (add_shift (s_shift s)) rest) (filter (fun t => Qltb (reached Y P s) t) pts)
+            /\ reached Y P s' == lastq pts 0).
+Proof. exact (fun Y P flow solve_ok => time_course_spec Y P flow solve_ok gen_sim_facts (good_of_pinned _ C04_facts_pinned)). Qed.
+Print Assumptions C04_time_course_partial.
+
+(** update_variable(s): the override is applied to the state the next segment would have started
+    from (so successive overrides accumulate), the result is untouched, the invariant is kept *)
+Theorem C04_override :
+  forall (Y P O : Type) (yovr : Y -> O -> Y) (s : sim Y P) (o : O),
+    Inv2 Y P s ->
+    Inv2 Y P (fst (update_variables Y P O yovr gen_sim_facts s o))
+    /\ i_y0 (s_int (fst (update_variables Y P O yovr gen_sim_facts s o))) = yovr (i_y0 (s_int s)) o
+    /\ index_of Y P (fst (update_variables Y P O yovr gen_sim_facts s o)) = index_of Y P s.
+Proof. exact (fun Y P O yovr => update_variables_inv2 Y P O yovr gen_sim_facts (good_of_pinned _ C04_facts_pinned)). Qed.
+Print Assumptions C04_override.
+
+(** clear_results: the simulator behaves as a new one started from its current y0 and parameters *)
+Theorem C04_clear :
+  forall (Y P U O : Type) (flow : P -> Q -> Y -> Q -> Y) (solve_ok : P -> Q -> Y -> Q -> bool)
+         (conv : Y -> Y -> bool) (pupd : P -> U -> P) (yovr : Y -> O -> Y) (s : sim Y P) (ops : list (op U O)),
+    run Y P U O flow solve_ok conv pupd yovr gen_sim_facts s (OClear :: ops)
+    = run Y P U O flow solve_ok conv pupd yovr gen_sim_facts (sim_new Y P (s_y0 s) (s_mp s)) ops.
+Proof. exact (fun Y P U O flow solve_ok conv pupd yovr s ops => eq_refl). Qed.
+Print Assumptions C04_clear.
+
+(** KNOWN FINDING steady-state-resets-integrator: the guard [no_steady] cannot be dropped *)
+Theorem C04_steady_refuted :
+  exists ops : list xop,
+    ~ incr (index_of (list Q) (list Q) (xrun gen_sim_facts (xnew [1; 0] [1; 0; 0; 0]) ops)).
+Proof.
+  exists [OSim 500 (Some 2%nat); OSteady; OSim 800 (Some 2%nat)].
+  apply not_incr_by_compute. vm_compute. reflexivity.
+Qed.
+Print Assumptions C04_steady_refuted.
+
+(** KNOWN FINDING override-restarts-model-time: with dx/dt = time ([a] = 1), simulate(2);
+    update_variable(x, 2); simulate(4) stores x(4) = 4, while the solution from x(2) = 2 is 8:
+    the row is [flow p h ..] with [h] the integrator's shifted time 0, not the absolute time 2 *)
+Theorem C04_nonautonomous_refuted :
+  let s := xrun gen_sim_facts (xnew [0; 0] [0; 0; 1; 0])
+             [OSim 2 (Some 1%nat); OUpdVar [(0%nat, 2)]; OSim 4 (Some 1%nat)] in
+  map (fun sg => map (fun r => (Qred (fst r), snd r)) sg) (match s_vars s with Some l => l | None => [] end)
+    = [[(0, [0; 0]); (2, [2; 0])]; [(4, [4; 0])]]
+  /\ xflow [0; 0; 1; 0] 2 [2; 0] 2 = [8; 0].
+Proof. vm_compute. split; reflexivity. Qed.
+Print Assumptions C04_nonautonomous_refuted.
+
+(** the two defects repaired by fixes/C04-*.diff, refuted on the facts of the UNREPAIRED tree:
+    simulate(10); update_variable; simulate(15) is refused although 15 > 10, and
+    after simulate(2) (x = 3, y = 1) update_variable(x,5); update_variable(y,0) forgets x = 5 on the
+    unrepaired facts and keeps it on the regenerated ones *)
+Theorem C04_unrepaired_refuted :
+  map (fun r => out_code (snd r))
+      (xtrace unrepaired_facts (xnew [1; 1] [1; 1 # 2; 0; 0]) [OSim 10 (Some 2%nat); OUpdVar [(0%nat, 2)]; OSim 15 (Some 2%nat)])
+    = [0; 0; 1]%nat
+  /\ i_y0 (s_int (xrun unrepaired_facts (xnew [1; 1] [1; 0; 0; 0]) [OSim 2 (Some 1%nat); OUpdVar [(0%nat, 5)]; OUpdVar [(1%nat, 0)]]))
+     = [3; 0]
+  /\ i_y0 (s_int (xrun gen_sim_facts (xnew [1; 1] [1; 0; 0; 0]) [OSim 2 (Some 1%nat); OUpdVar [(0%nat, 5)]; OUpdVar [(1%nat, 0)]]))
+     = [5; 0].
+Proof. vm_compute. repeat split; reflexivity. Qed.
+Print Assumptions C04_unrepaired_refuted.
+
+(** non-vacuity: a six-operation history meeting the hypotheses, with its result *)
+Example C04_nonvacuous :
+  let ops : list xop := [OSim 10 (Some 2%nat); OUpdVar [(0%nat, 2)]; OSim 15 (Some 2%nat);
+                         OUpdPar [(0%nat, 2)]; OTc [12; 14; 15; 21; 23]; OSim 20 (Some 1%nat)] in
+  Forall (no_steady _ _) ops
+  /\ xindex (xrun gen_sim_facts (xnew [1; 0] [1; 0; 0; 0]) ops) = [0; 5; 10; 25 # 2; 15; 21; 23]
+  /\ has_errors _ _ (xrun gen_sim_facts (xnew [1; 0] [1; 0; 0; 0]) ops) = false.
+Proof. cbv zeta. split; [repeat constructor|]. vm_compute. split; reflexivity. Qed.
+Print Assumptions C04_nonvacuous.
